@@ -51,6 +51,7 @@ class Sidecar:
         self.contracts = {}
         self.specs = {}
         self.consts = {}
+        self.global_types = {}
         for n in self.tree.body:
             if isinstance(n, ast.Assign) and isinstance(n.targets[0], ast.Name):
                 nm = n.targets[0].id
@@ -63,6 +64,8 @@ class Sidecar:
                         self.contracts[k] = Contract(k, d, self)
                 elif nm == "CONSTS":
                     self.consts = ast.literal_eval(n.value)
+                elif nm == "GLOBAL_TYPES":
+                    self.global_types = ast.literal_eval(n.value)
             elif isinstance(n, ast.FunctionDef):
                 self.specs[n.name] = n
 
@@ -72,6 +75,7 @@ class Ctx:
         self.repo = repo
         self.sidecars = []
         self.contracts = {}       # call name -> Contract
+        self.global_types = {}
         self.specs = {}           # spec function name -> FunctionDef
         self.module_consts = {}
         for fn_ in sorted(os.listdir(contract_dir)):
@@ -82,6 +86,7 @@ class Ctx:
                     self.contracts[k.split(".")[-1]] = c
                 self.specs.update(sc.specs)
                 self.module_consts.update(sc.consts)
+                self.global_types.update(sc.global_types)
         self.axioms = T.base_axioms() + lib.axioms()
         self.extra_axioms = []
         self.solver = None
@@ -185,6 +190,12 @@ class Ctx:
             self.solver.add(*self.axioms)
             self.solver.add(*self.extra_axioms)
         return self.solver
+
+    def type_facts(self, key, value):
+        """type invariants of module tables: facts about a (new) value of the location `key`"""
+        if key.startswith("global:") and self.global_types.get(key[7:]) == "dict" and z3.is_expr(value) and not z3.is_bool(value):
+            return [pred("is_dict", value)]
+        return []
 
     def reset_solver(self):
         self.solver = None
@@ -642,7 +653,9 @@ class Ctx:
             q = q.copy()
         for m in c.modifies:
             l = self.resolve_comp(ex, m, binding, q)
-            l.set(q, app("%s!post!%s" % (nm, m), *allv))
+            newv = app("%s!post!%s" % (nm, m), *allv)
+            l.set(q, newv)
+            q.conds.extend(self.type_facts(l.key, newv))
             ex.note_write(l.key)
             self.effect(ex, q, "callee-modifies:" + c.name, l.key, e)
         ret = app(nm + "!ret", *allv)
